@@ -185,6 +185,29 @@ pub enum Vals {
 impl Case {
     pub fn values(&self) -> Vec<f32> {
         match &self.vals {
+            Vals::Seeded { stratum, seed, n } if *stratum >= 16 => {
+                // banded image: every value on one side of a curve threshold t (band index = stratum - 16: even = [t,1],
+                // odd = [0,t]), half of the values within a factor of 16 of t. Whole-image predicates ("no value on the
+                // linear toe") hold on such images and on no uniformly filled one.
+                let th = thresholds();
+                let bi = (*stratum - 16) as usize;
+                let t = th[(bi / 2) % th.len()] as f64;
+                let mut e = Expand(*seed);
+                (0..*n)
+                    .map(|_| {
+                        let near = e.below(2) == 0;
+                        let x = if bi % 2 == 0 {
+                            let hi = if near { (t * 16.0).min(1.0) } else { 1.0 };
+                            t + (hi - t) * e.unit()
+                        } else {
+                            let lo = if near { t / 16.0 } else { 0.0 };
+                            lo + (t - lo) * e.unit()
+                        };
+                        (x as f32).clamp(0.0, 1.0)
+                    })
+                    .map(|x| if bi % 2 == 0 { x.max(t as f32) } else { x.min(t as f32) })
+                    .collect()
+            }
             Vals::Seeded { stratum, seed, n } => match stratum % 9 {
                 6 => {
                     // feedback chain: each value is the library's own result for the previous one, so that
@@ -293,6 +316,14 @@ pub fn check_named(prop: &str, case: &Case, st: &mut Stats) -> Result<(), Violat
     let (t, d) = (case.t, case.dir);
     let sig = format!("{prop}:curve:{}:{}", tc_name(t), if d == Dir::ToLinear { "to_linear" } else { "to_gamma" });
     let fail = |msg: String, vals: &[f32]| Violation { signature: sig.clone(), message: msg, case: case.json_with(prop, vals) };
+    if vals.len() >= 4096 {
+        // for a third of the larger images the previous call on this thread converts a permutation of the same values
+        if let Some(k) = prior_perm_kind(vals.iter().map(|v| v.to_bits()), vals.len()) {
+            let q = permuted(&vals, k, 0);
+            let _ = catch(|| case.apply(&q));
+            st.class("preceded_by_a_permutation_of_the_same_image", 1);
+        }
+    }
     let got = match catch(|| case.apply(&vals)) {
         Err(p) => return Err(fail(format!("panic: {p}"), &vals)),
         Ok(Err(e)) => return Err(fail(e, &vals)),
@@ -491,6 +522,43 @@ pub fn code_grids(ctx: &Ctx, st: &mut Stats, prop: &'static str, chk: fn(&str, &
     })
 }
 
+/// one banded image (see `Case::values`, strata >= 16) of 65,537 pixels (thorough: also 262,147) per curve, direction,
+/// threshold and side
+pub fn banded_images(ctx: &Ctx, st: &mut Stats, prop: &'static str, chk: fn(&str, &Case, &mut Stats) -> Result<(), Violation>, dirs: &[Dir]) -> Vec<Violation> {
+    if ctx.light {
+        return Vec::new();
+    }
+    let nb = thresholds().len() * 2;
+    let sizes: Vec<usize> = if ctx.quick() { vec![65_537] } else { vec![65_537, 262_147] };
+    let mut jobs = Vec::new();
+    for t in SUP_TC.iter() {
+        for &d in dirs {
+            for b in 0..nb {
+                for &n in &sizes {
+                    jobs.push((*t, d, b, n));
+                }
+            }
+        }
+    }
+    let seed0 = ctx.seed;
+    par_sweep(ctx, st, jobs.len() as u64, |lo, hi, st| {
+        for j in lo..hi {
+            let (t, d, b, n) = jobs[j as usize];
+            let case = Case { t, dir: d, vals: Vals::Seeded { stratum: 16 + b as u8, seed: mix64(seed0 ^ j ^ 0xBA4D), n: n * 3 }, mates: None };
+            let mut local = Stats::new();
+            local.sample_budget = 0;
+            if let Err(v) = chk(prop, &case, &mut local) {
+                return Some(v);
+            }
+            st.evaluations += 1;
+            st.comparisons += local.comparisons;
+            st.nontrivial_by_construction += 1;
+            st.class("banded_images", 1);
+        }
+        None
+    })
+}
+
 /// images of 65536+ pixels (size-gated / threaded paths) for every curve and direction: pixel counts that
 /// are divisible by no small number, and the standard UHD / 4K / 8K frame sizes
 pub fn large_images(ctx: &Ctx, st: &mut Stats, prop: &'static str, chk: fn(&str, &Case, &mut Stats) -> Result<(), Violation>, dirs: &[Dir]) -> Vec<Violation> {
@@ -558,6 +626,10 @@ pub fn run(ctx: &Ctx, st: &mut Stats) -> Vec<Violation> {
     if !v.is_empty() {
         return v;
     }
+    v.extend(banded_images(ctx, st, "C03", check_named, &[Dir::ToLinear, Dir::ToGamma]));
+    if !v.is_empty() {
+        return v;
+    }
     let stride = if ctx.light { 1021 } else { ctx.pick(257, 1) };
     v.extend(sweep(ctx, st, "C03", stride, check_named, &[Dir::ToLinear, Dir::ToGamma]));
     if stride == 1 && v.is_empty() {
@@ -594,4 +666,4 @@ pub fn replay(v: &Value) -> Result<(), String> {
     check(&case, &mut Stats::new()).map_err(|v| v.message)
 }
 
-pub const RULE: &str = "cases = (curve in 14 supported, direction, batch of 1..768 values of [0,1] from 8 strata: uniform value, uniform bit pattern, +-64 ulp around every curve threshold, powers of two +-4 ulp, subnormal/tiny, dense below 1, feedback chain (each value is the library's result for the previous one), runs of repeated values, one-sided images of 4100+ samples with outliers at their ends; in a quarter of the cases each checked value sits in a pixel whose other two components are out-of-range mates) generated by proptest, plus one image of 65537 / 131101 / 262147 / 4194307 (thorough: 8300401) pixels per curve and direction, plus the complete code grids (every k/(2^n-1) and limited-range (k-16s)/(219s) at 8/10/12 bit, k/65535, and the library's own decode of the grey ramps: ~90,000 values per curve and direction), plus long single-thread call histories (periods 255, 256, 65535, 65536: the same value under neighbouring curves / the other direction exactly one period later must still convert like inside a whole image), plus a strided (quick) or complete (thorough) enumeration of all f32 in [0,1] in blocks of 65536; each value compared with the f64 defining formula (tol 2.5e-4; PQ to_gamma 5.7e-4; builds without fastmath 5e-5), Linear and BT.1886 aliases compared bitwise; non-trivial = batch containing a value strictly inside (0,1); distinct = by hash of (curve, direction, value bits)";
+pub const RULE: &str = "cases = (curve in 14 supported, direction, batch of 1..768 values of [0,1] from 8 strata: uniform value, uniform bit pattern, +-64 ulp around every curve threshold, powers of two +-4 ulp, subnormal/tiny, dense below 1, feedback chain (each value is the library's result for the previous one), runs of repeated values, one-sided images of 4100+ samples with outliers at their ends; in a quarter of the cases each checked value sits in a pixel whose other two components are out-of-range mates) generated by proptest, plus one image of 65537 / 131101 / 262147 / 4194307 (thorough: 8300401) pixels per curve and direction, plus the complete code grids (every k/(2^n-1) and limited-range (k-16s)/(219s) at 8/10/12 bit, k/65535, and the library's own decode of the grey ramps: ~90,000 values per curve and direction), plus banded images (65,537 pixels, every value on one side of a curve threshold, for every threshold, side, curve and direction), a prior call on a permutation of the same values for a third of the images of 4096+ values, plus long single-thread call histories (periods 255, 256, 65535, 65536: the same value under neighbouring curves / the other direction exactly one period later must still convert like inside a whole image), plus a strided (quick) or complete (thorough) enumeration of all f32 in [0,1] in blocks of 65536; each value compared with the f64 defining formula (tol 2.5e-4; PQ to_gamma 5.7e-4; builds without fastmath 5e-5), Linear and BT.1886 aliases compared bitwise; non-trivial = batch containing a value strictly inside (0,1); distinct = by hash of (curve, direction, value bits)";
